@@ -591,19 +591,31 @@ class Exec(Ops):
 
   def e_Dict(self, n, env):
     hint = self.type_hint(n)
+    if hint is None:
+      hint = getattr(self.spec, 'dict_hint', None)
     if hint is None and not n.keys:
       return PyTuple(())  # `{}` of unknown sort: only ever handed to a summary (e.g. type(name, bases, {}))
     if hint is None:
       raise OutsideSubset(f'dict literal without a sort hint (line {n.lineno})')
     if getattr(hint, 'from_dict_literal', None):
       return hint.from_dict_literal(self, [(self.eval(k, env), self.eval(v, env)) for k, v in zip(n.keys, n.values)])
-    m = self.empty_map(hint)
+    m = first = self.empty_map(hint)
     for k, v in zip(n.keys, n.values):
       if k is None:
         src = self.deref(self.eval(v, env))   # {**other, ...}: starts from a copy of `other` (only as the first entry)
-        if not (isinstance(src, SV) and isinstance(src.sort, MapOf) and src.sort.name == hint.name and k is n.keys[0]):
-          raise OutsideSubset('dict ** unpacking (only `{**mapping, ...}` with the mapping first is modelled)')
-        m = SV(hint, src.t)
+        if not (isinstance(src, SV) and isinstance(src.sort, MapOf) and src.sort.name == hint.name):
+          raise OutsideSubset('dict ** unpacking of something that is not a map of the literal\'s sort')
+        if m is first:
+          m = SV(hint, src.t)
+        else:
+          # {k: v, **other}: entries of `other` win; earlier keys keep their position
+          r = hint.const('unpack')
+          kk = z3.Const(fresh_name('k'), hint.key.z3())
+          self.assume(hint.dom(r) == z3.SetUnion(hint.dom(m.t), hint.dom(src.t)))
+          self.assume(qforall([kk], hint.get(r, kk) == z3.If(hint.has(src.t, kk), hint.get(src.t, kk), hint.get(m.t, kk)), patterns=[hint.get(r, kk)]))
+          for f in hint.keys_wf(r):
+            self.assume(f)
+          m = SV(hint, r)
         continue
       m = self.map_set(m, self.eval(k, env), self.eval(v, env))
     return self.new_box(m)
